@@ -22,11 +22,13 @@ func (t *Dense) T(axes ...int) (err error) {
 		}
 
 		// check if the current axes are just a reverse of the previous transpose's
-		isReversed := true
-		for i, s := range t.oshape() {
-			if transform.Shape()[i] != s {
-				isReversed = false
-				break
+		isReversed := len(axes) == len(t.transposeWith)
+		if isReversed {
+			for i, a := range axes {
+				if a < 0 || a >= len(t.transposeWith) || t.transposeWith[a] != i {
+					isReversed = false
+					break
+				}
 			}
 		}
 
